@@ -86,6 +86,7 @@ type FrrSession struct {
 	Vrf       string       `json:"vrf"`
 	Myasn     string       `json:"myasn"`
 	Routerid  string       `json:"routerid"`
+	Afam      int          `json:"afam"` // family of Addr (4 / 6), 0 for an interface
 	Addr      string       `json:"addr"`
 	Iface     string       `json:"iface"`
 	Asn       string       `json:"asn"`
